@@ -45,6 +45,14 @@ Theorem C09_let_sound :
     sim (eval_let (fst (let_bindings O cur_shape datum bs n)) em) (bind_let O bs es).
 Proof. exact DProofs.let_sound. Qed.
 
+(** fn parameters and loop bindings (also after recur): once the parameter / loop variable is
+    bound to a value, the let* in the body binds what the pattern binds on that value *)
+Theorem C09_fn_loop_block_sound :
+  forall (O : oracle) (datum : expr O -> val O) (p : pat O) (n : N) d n' (em es : env O) (v : val O),
+    mkdef O p n = (d, n') -> user_pat p = true -> alias_ok p = true -> agree em es ->
+    sim (eval_let (dbind_ns O cur_shape datum d) ((dname O d, v) :: em)) (bind O p v es).
+Proof. exact DProofs.param_block_sound. Qed.
+
 (** the emitted list binds only binders of the pattern and temporaries allocated for it *)
 Theorem C09_destructure_binds_only_pattern_names :
   forall (O : oracle) (datum : expr O -> val O) (p : pat O) (n : N) d n',
@@ -202,6 +210,7 @@ Print Assumptions C09_destructure_sound.
 Print Assumptions C09_destructure_sound_alias_ok.
 Print Assumptions C09_distinct_binders_meet_guard.
 Print Assumptions C09_let_sound.
+Print Assumptions C09_fn_loop_block_sound.
 Print Assumptions C09_destructure_binds_only_pattern_names.
 Print Assumptions C09_or_default_iff_absent.
 Print Assumptions C09_dup_binders_later_wins.
